@@ -11,6 +11,11 @@ compared with (x - mean) / std computed directly (two-pass) from the model's vec
 are merged on the canonical form of the real object, and a merge of two histories whose models
 disagree is reported.  Every ordered set partition of the data set is a path of the search.
 
+Engine E (sub-check call_histories): apply() calls are letters of the alphabet too - every
+interleaving of apply(vector | single-vector tensor | tensor) with accumulate(vector | tensor)
+and refused calls on ONE instance, merged search to a depth bound plus an un-merged enumeration
+on new objects (see the comment block above _Hist).
+
 Engine L (sub-checks local, global_apply): local standardisation and apply() with given
 statistics over tensor shapes x axes x dtypes x norm_var x in_place, and the ValueError on a
 mismatching feature dimension.
@@ -37,6 +42,11 @@ ASSUMPTIONS = [
     "property: values are not compared there, only shape/dtype",
     "local / global_apply: well-separated generic values (any two entries differ by >= 0.8, "
     "magnitudes <= ~40) so that rtol 1e-10 is far above round-off of either formula",
+    "call_histories: 8 integer-valued vectors (statistics of equal multisets are bit-identical, so states "
+    "merge); 53 letters; merged search to depth 4 (quick) / 5 (thorough) assumes the canonical form (instance, "
+    "class and module-level data of pydrobert.speech.post) holds all state, the un-merged enumeration of all "
+    "sequences of 3 calls (2 for F=1 in quick) does not; a single vector without statistics: zeros without "
+    "norm_var, no value demanded with norm_var (zero variance)",
     "the 'loaded' start state reads a 2 x (F+1) float64 .npy written by the harness (sums and "
     "count in row 0, sums of squares in row 1), as documented for the statistics matrix",
 ]
@@ -128,6 +138,14 @@ def _presentations(k):
     if k > 1:
         out.append("rev")
     return out
+
+
+def _exact_stats(data, idx):
+    """(count, sums, sums of squares) of the integer-valued rows idx of data, in exact integer
+    arithmetic: two multisets of vectors define the same transform iff these agree"""
+    F = data.shape[1]
+    return (len(idx), tuple(sum(int(data[i, f]) for i in idx) for f in range(F)),
+            tuple(sum(int(data[i, f]) ** 2 for i in idx) for f in range(F)))
 
 
 class Ctx:
@@ -337,9 +355,8 @@ def explore_config(c, seed, replay_ops=None):
         a = _model_of_hist(ctx, rep_hist)
         if a == s2.sub:
             return []
-        ma, mb = _expected(ctx, a), _expected(ctx, s2.sub)
-        if len(a) == len(s2.sub) and np.array_equal(ma[0], mb[0]) and np.array_equal(ma[1], mb[1]):
-            return []
+        if _exact_stats(ctx.data, a) == _exact_stats(ctx.data, s2.sub):
+            return []  # different vectors, identical sufficient statistics: the same transform
         return [core.violation(
             ctx.tags(what="merge_mismatch"),
             "histories accumulating vectors %s and %s leave the object in the same state" % (a, s2.sub),
@@ -391,26 +408,33 @@ def _configs(tier):
 # ------------------------------------------------------------------ engine L
 
 
+def _same_bits(a, b):
+    return a.shape == b.shape and a.dtype == b.dtype and a.tobytes() == b.tobytes()
+
+
 def _check_apply(obj, x, axis, in_place, want, tags, case, what="values"):
-    pristine = np.array(x, copy=True)
-    arg = x if not in_place else np.array(x, copy=True)
+    """x: pristine (read-only) input; the implementation gets a WRITABLE copy, so that a write to
+    the caller's array shows as `input_modified` (bit comparison), not as an exception"""
+    arg = np.array(x, copy=True)
     with warnings.catch_warnings():
         warnings.simplefilter("ignore")
         r = computers.call(obj.apply, arg, axis, in_place)
-    if r[0] != "ok":
-        return [core.violation(dict(tags, what="exception", exc=r[1]),
-                               "apply raised %s: %s" % (r[1], r[2]), case)], None
-    got = r[1]
-    if not isinstance(got, np.ndarray) or got.shape != x.shape:
-        return [core.violation(dict(tags, what="shape"), "result shape %r for input %r" % (
-            getattr(got, "shape", None), x.shape), case)], None
-    if got.dtype != np.float64:
-        return [core.violation(dict(tags, what="dtype"), "result dtype %s, documented float64" % got.dtype,
-                               case)], None
     viol = []
-    if not in_place and not np.array_equal(x, pristine):
+    if not in_place and not _same_bits(arg, x):
         viol.append(core.violation(dict(tags, what="input_modified"),
                                    "apply(in_place=False) changed its input", case))
+    if r[0] != "ok":
+        return viol + [core.violation(dict(tags, what="exception", exc=r[1]),
+                                      "apply raised %s: %s" % (r[1], r[2]), case)], None
+    got = r[1]
+    if not isinstance(got, np.ndarray) or got.shape != x.shape:
+        return viol + [core.violation(dict(tags, what="shape"), "result shape %r for input %r" % (
+            getattr(got, "shape", None), x.shape), case)], None
+    if got.dtype != np.float64:
+        return viol + [core.violation(dict(tags, what="dtype"),
+                                      "result dtype %s, documented float64" % got.dtype, case)], None
+    if want is None:
+        return viol, got  # the property does not define the values here
     err = np.abs(got - want)
     if not np.all(err <= RTOL * (1.0 + np.abs(want))):
         i = np.unravel_index(np.argmax(err), err.shape)
@@ -418,6 +442,41 @@ def _check_apply(obj, x, axis, in_place, want, tags, case, what="values"):
                                    "result%s = %r, direct formula %r" % (
                                        list(map(int, i)), float(got[i]), float(want[i])), case))
     return viol, got
+
+
+def _check_single(norm_var, x, axis, in_place, tags, case):
+    """no statistics and ONE feature vector (a 1-D input, or a tensor whose other axes all have
+    length 1): its own mean is the vector itself, so without norm_var the result is all zeros
+    (float64, input untouched); with norm_var the variance is zero and the property defines no
+    value - raising is accepted, but the input must still be untouched"""
+    from pydrobert.speech import post
+
+    arg = np.array(x, copy=True)
+    obj = post.Standardize(norm_var=norm_var)
+    with warnings.catch_warnings():
+        warnings.simplefilter("ignore")
+        r = computers.call(obj.apply, arg, axis, in_place)
+    tags = dict(tags, single_vector=True)
+    viol = []
+    if not in_place and not _same_bits(arg, x):
+        viol.append(core.violation(dict(tags, what="input_modified"),
+                                   "apply(in_place=False) changed its input", case))
+    if r[0] != "ok":
+        if not norm_var:
+            viol.append(core.violation(dict(tags, what="exception", exc=r[1]),
+                                       "apply raised %s: %s" % (r[1], r[2]), case))
+        return viol, "raised"
+    got = r[1]
+    if not isinstance(got, np.ndarray) or got.shape != x.shape:
+        viol.append(core.violation(dict(tags, what="shape"), "result shape %r for input %r" % (
+            getattr(got, "shape", None), x.shape), case))
+    elif got.dtype != np.float64:
+        viol.append(core.violation(dict(tags, what="dtype"),
+                                   "result dtype %s, documented float64" % got.dtype, case))
+    elif not norm_var and np.any(got != 0.0):
+        viol.append(core.violation(dict(tags, what="values"),
+                                   "a single vector minus its own mean is not zero: %r" % got.tolist()[:6], case))
+    return viol, "zeros" if not norm_var else "undefined"
 
 
 def _local_data(seed, shape, dtype):
@@ -436,7 +495,16 @@ def _eval_local(pt, seed):
     for axis in range(-len(shape), len(shape)):
         count = int(np.prod(shape)) // shape[axis]
         if count < 2:
-            skipped += 1  # a single vector has no variance: outside the property
+            for in_place in (False, True):
+                tags = dict(mode="local", norm_var=norm_var, dtype=dtype, ndim=len(shape), in_place=in_place)
+                case = dict(mode="local", shape=list(shape), dtype=dtype, norm_var=norm_var, axis=axis,
+                            in_place=in_place)
+                v, o = _check_single(norm_var, x, axis, in_place, tags, case)
+                evals += 1
+                nontriv += int(o == "zeros")
+                skipped += int(o != "zeros")  # zero variance: values outside the property
+                viol.extend(v)
+                obs.add(("single", norm_var, in_place, o))
             continue
         mean, var = ref.mean_var(ref.vectors_of(x, axis))
         want = ref.standardize(x, mean, var, axis, norm_var)
@@ -473,6 +541,9 @@ def _replay_local(case, seed):
         return _replay_global(case, seed)
     shape, dtype, norm_var, axis = tuple(case["shape"]), case["dtype"], case["norm_var"], case["axis"]
     x = _local_data(seed, shape, dtype)
+    if int(np.prod(shape)) // shape[axis] < 2:
+        tags = dict(mode="local", norm_var=norm_var, dtype=dtype, ndim=len(shape), in_place=case["in_place"])
+        return core.result(_check_single(norm_var, x, axis, case["in_place"], tags, case)[0])
     mean, var = ref.mean_var(ref.vectors_of(x, axis))
     want = ref.standardize(x, mean, var, axis, norm_var)
     tags = dict(mode="local", norm_var=norm_var, dtype=dtype, ndim=len(shape), in_place=case["in_place"])
@@ -561,10 +632,382 @@ def _replay_global(case, seed):
     return core.result(v)
 
 
+# ------------------------------------------------------------------ call histories on ONE object
+#
+# accumulate_bfs observes apply() with a fixed battery of probes after every accumulate.  Here
+# apply() calls are LETTERS of the alphabet like the accumulate calls, so every interleaving of
+# apply(vector | single-vector tensor | tensor, dtype, in_place) with accumulate(vector | tensor)
+# on ONE instance is a history - including apply before anything was accumulated (local
+# standardisation) and refused calls (mismatching dimension) in between.
+#   (a) explorer.bfs with merging on the canonical object state to a depth bound (integer-valued
+#       data: the statistics of equal multisets of vectors are bit-identical);
+#   (b) every sequence of H_PLAIN calls on a new object, nothing merged, nothing deep-copied.
+# Oracle of every apply: the direct formula over the model's multiset of accumulated vectors
+# (mc/refs/post.py); float64; input bit-identical unless in_place; and - the property's "any
+# split gives the same transform" - agreement with a FRESH object that accumulated the same
+# vectors in one call (this is the only value check where a zero variance leaves the formula
+# undefined).
+
+H_ACC = ("vec", "vec:f32", "t2:-1", "t2:0", "t3:1", "t1:-1", "t2:-1:i16")
+H_ACC_ROWS = {"vec": (0,), "vec:f32": (1,), "t2:-1": (2, 3, 4), "t2:0": (5, 6), "t3:1": (2, 3, 5, 7),
+              "t1:-1": (7,), "t2:-1:i16": (0, 3)}
+H_APPLY_KINDS = ("vec", "1xF", "Fx1", "3xF", "Fx3", "2xFx2", "1x1xF")
+H_APPLY_DTYPES = ("float64", "float32", "int16")
+H_NLETTERS = 7 + 7 * 3 * 2 + 4
+
+
+def _h_acc_arg(data, name, F):
+    rows = data[list(H_ACC_ROWS[name])]
+    if name == "vec":
+        x, axis = rows[0], None
+    elif name == "vec:f32":
+        x, axis = rows[0].astype(np.float32), None
+    elif name == "t2:-1":
+        x, axis = rows, -1
+    elif name == "t2:0":
+        x, axis = rows.T, 0
+    elif name == "t3:1":
+        x, axis = np.transpose(rows.reshape(2, 2, F), (0, 2, 1)), 1
+    elif name == "t1:-1":
+        x, axis = rows.reshape(1, F), -1
+    else:
+        x, axis = rows.astype(np.int16), -1
+    return sig.ro(np.ascontiguousarray(x)), axis
+
+
+def _h_apply_arg(seed, kind, dtype, F):
+    shape, axis = {"vec": ((F,), None), "1xF": ((1, F), -1), "Fx1": ((F, 1), 0), "3xF": ((3, F), 1),
+                   "Fx3": ((F, 3), -2), "2xFx2": ((2, F, 2), 1), "1x1xF": ((1, 1, F), -1)}[kind]
+    x = _separated(seed, shape, offset=40 + H_APPLY_KINDS.index(kind))
+    if dtype.startswith("int"):
+        x = np.round(x * 3.0)
+    return sig.ro(x.astype(dtype)), axis
+
+
+class _Lazy:
+    """description of a call, formatted only when a violation is reported"""
+    __slots__ = ("a",)
+
+    def __init__(self, *a):
+        self.a = a
+
+    def __str__(self):
+        hist, rows, L = self.a
+        return "call %d on one Standardize (earlier calls %s, vectors accumulated %s): %s" % (
+            len(hist) + 1, [list(h) for h in hist], list(rows), list(L))
+
+
+class _HSt:
+    __slots__ = ("obj", "rows", "hist")
+
+    def __init__(self, obj, rows, hist):
+        self.obj, self.rows, self.hist = obj, rows, hist
+
+
+class _Hist:
+    def __init__(self, c, seed):
+        self.c, self.seed = c, seed
+        self.F, self.norm_var = c["F"], bool(c["norm_var"])
+        self.data = _dataset(seed, 8, self.F, c["data"])
+        F = self.F
+        self.acc = dict((n, _h_acc_arg(self.data, n, F)) for n in H_ACC)
+        self.app = dict(((k, d), _h_apply_arg(seed, k, d, F)) for k in H_APPLY_KINDS for d in H_APPLY_DTYPES)
+        self.bad = {"vec": sig.ro(np.arange(F + 1, dtype=np.float64) - 1.5),
+                    "2d": sig.ro(np.arange(2.0 * (F + 1)).reshape(2, F + 1) - 2.5)}
+        self.letters = [["acc", n] for n in H_ACC]
+        self.letters += [["apply", k, d, ip] for k in H_APPLY_KINDS for d in H_APPLY_DTYPES
+                         for ip in (False, True)]
+        self.letters += [["bad_acc", "vec"], ["bad_acc", "2d"], ["bad_apply", "vec"], ["bad_apply", "2d"]]
+        if len(self.letters) != H_NLETTERS:
+            raise core.HarnessError("alphabet size")
+        self._want = {}
+        self.start_rows = (0, 1) if c["start"] == "pre" else ()
+
+    def make(self):
+        from pydrobert.speech import post
+
+        obj = post.Standardize(norm_var=self.norm_var)
+        if self.start_rows:
+            obj.accumulate(sig.ro(self.data[list(self.start_rows)]), -1)
+        return obj
+
+    def valid(self, L, rows):
+        # a "mismatching" dimension needs statistics to mismatch with
+        return not L[0].startswith("bad") or len(rows) > 0
+
+    def tags(self, L, hist, what, rows, **kw):
+        def kinds(which):
+            ks = set()
+            for h in hist:
+                if h[0] == which:
+                    ks.add("vec" if h[1].startswith("vec") else "tensor")
+            return "+".join(sorted(ks)) or "none"
+        t = dict(mode="history", norm_var=self.norm_var, what=what, have_stats=bool(rows),
+                 earlier_accumulate=kinds("acc"), earlier_apply=kinds("apply"))
+        if L[0] == "apply":
+            t.update(probe="vec" if L[1] == "vec" else "single_vector_tensor" if L[1] in ("1xF", "Fx1", "1x1xF")
+                     else "tensor")
+            if what in ("apply_dtype", "input_modified", "apply_exception"):
+                t["dtype"] = L[2]
+        else:
+            t.update(op=L[0], pres=L[1].split(":")[0])
+        t.update(kw)
+        return t
+
+    def want(self, kind, dtype, rows):
+        """(reference values or None, fresh object's result or ('exc', name), defined?)"""
+        k = (kind, dtype, rows)
+        if k in self._want:
+            return self._want[k]
+        from pydrobert.speech import post
+
+        x, axis = self.app[(kind, dtype)]
+        ax = 0 if axis is None else axis
+        count = x.size // x.shape[ax] if x.ndim > 1 else 1
+        if rows:
+            mean, var = ref.mean_var([self.data[i] for i in rows])
+            defined = not (self.norm_var and bool(np.any(var == 0.0)))
+            ref_vals = ref.standardize(x, mean, var, ax, self.norm_var) if defined else None
+        elif count >= 2:
+            mean, var = ref.mean_var(ref.vectors_of(x, ax))
+            defined = True
+            ref_vals = ref.standardize(x, mean, var, ax, self.norm_var)
+        else:
+            defined = not self.norm_var
+            ref_vals = np.zeros(x.shape) if defined else None
+        fresh = post.Standardize(norm_var=self.norm_var)
+        if rows:
+            fresh.accumulate(sig.ro(self.data[list(rows)]), -1)
+        with warnings.catch_warnings():
+            warnings.simplefilter("ignore")
+            r = computers.call(fresh.apply, np.array(x, copy=True)) if axis is None else \
+                computers.call(fresh.apply, np.array(x, copy=True), axis)
+        self._want[k] = (ref_vals, r, defined)
+        return self._want[k]
+
+    def raw(self, obj, L, rows):
+        """perform letter L without the oracle (prefix of a longer sequence); returns new rows"""
+        with warnings.catch_warnings():
+            warnings.simplefilter("ignore")
+            if L[0] == "acc":
+                x, axis = self.acc[L[1]]
+                r = computers.call(obj.accumulate, x) if axis is None else computers.call(obj.accumulate, x, axis)
+                return tuple(sorted(rows + H_ACC_ROWS[L[1]])) if r[0] == "ok" else rows
+            if L[0] in ("bad_acc", "bad_apply"):
+                computers.call(obj.accumulate if L[0] == "bad_acc" else obj.apply,
+                               np.array(self.bad[L[1]], copy=True))
+                return rows
+            x, axis = self.app[(L[1], L[2])]
+            arg = np.array(x, copy=True)
+            if axis is None:
+                computers.call(lambda: obj.apply(arg, in_place=L[3]))
+            else:
+                computers.call(obj.apply, arg, axis, L[3])
+            return rows
+
+    def call(self, obj, L, rows, hist):
+        """apply letter L to the (used) object; returns (violations, new rows, observation)"""
+        case = dict(mode="history", config=self.c)
+        where = _Lazy(hist, rows, L)
+        viol = []
+        if L[0] == "acc":
+            x, axis = self.acc[L[1]]
+            r = computers.call(obj.accumulate, x) if axis is None else computers.call(obj.accumulate, x, axis)
+            if r[0] != "ok":
+                return [core.violation(self.tags(L, hist, "accumulate_exception", rows, exc=r[1]),
+                                       "%s raised %s: %s" % (where, r[1], r[2]), case)], rows, ("acc", "exc")
+            rows = tuple(sorted(rows + H_ACC_ROWS[L[1]]))
+            hs = computers.call(lambda: bool(obj.have_stats))
+            if hs != ("ok", True):
+                viol.append(core.violation(self.tags(L, hist, "have_stats", rows),
+                                           "%s: have_stats is %r afterwards" % (where, hs[1:]), case))
+            return viol, rows, ("acc", L[1], len(rows) > 4)
+        if L[0] in ("bad_acc", "bad_apply"):
+            bad = np.array(self.bad[L[1]], copy=True)
+            with warnings.catch_warnings():
+                warnings.simplefilter("ignore")
+                r = computers.call(obj.accumulate if L[0] == "bad_acc" else obj.apply, bad)
+            if not (r[0] == "exc" and r[1] == "ValueError"):
+                viol.append(core.violation(
+                    self.tags(L, hist, "mismatch_accepted", rows),
+                    "%s: %d coefficients on statistics for %d: %s" % (
+                        where, self.F + 1, self.F, "returned" if r[0] == "ok" else "%s: %s" % (r[1], r[2])),
+                    case))
+            return viol, rows, (L[0], L[1], r[0])
+        _, kind, dtype, ip = L
+        x, axis = self.app[(kind, dtype)]
+        ref_vals, fresh, defined = self.want(kind, dtype, rows)
+        arg = np.array(x, copy=True)
+        with warnings.catch_warnings():
+            warnings.simplefilter("ignore")
+            r = computers.call(lambda: obj.apply(arg, in_place=ip)) if axis is None else \
+                computers.call(obj.apply, arg, axis, ip)
+        if not ip and not _same_bits(arg, x):
+            viol.append(core.violation(self.tags(L, hist, "input_modified", rows),
+                                       "%s changed its input" % where, case))
+        if r[0] != "ok":
+            if defined:
+                viol.append(core.violation(self.tags(L, hist, "apply_exception", rows, exc=r[1]),
+                                           "%s raised %s: %s" % (where, r[1], r[2]), case))
+            elif fresh[0] == "ok":
+                viol.append(core.violation(
+                    self.tags(L, hist, "split_changes_transform", rows, sub="raises", exc=r[1]),
+                    "%s raised %s: %s; an object that accumulated the same vectors in one call returns "
+                    "normally" % (where, r[1], r[2]), case))
+            return viol, rows, ("apply", kind, "exc", defined)
+        got = r[1]
+        if not isinstance(got, np.ndarray) or got.shape != x.shape:
+            viol.append(core.violation(self.tags(L, hist, "apply_shape", rows),
+                                       "%s has shape %r" % (where, getattr(got, "shape", None)), case))
+            return viol, rows, ("apply", kind, "shape")
+        if got.dtype != np.float64:
+            viol.append(core.violation(self.tags(L, hist, "apply_dtype", rows),
+                                       "%s returned %s, documented float64" % (where, got.dtype), case))
+            return viol, rows, ("apply", kind, "dtype")
+        if defined:
+            err = np.abs(got - ref_vals)
+            if not np.all(err <= RTOL * (1.0 + np.abs(ref_vals))):
+                i = np.unravel_index(np.argmax(err), err.shape)
+                f = fresh[1] if fresh[0] == "ok" else None
+                viol.append(core.violation(
+                    self.tags(L, hist, "apply_values", rows),
+                    "%s: result%s = %r; direct formula over the accumulated vectors %r; a fresh object that "
+                    "accumulated them in one call gives %r" % (
+                        where, list(map(int, i)), float(got[i]), float(ref_vals[i]),
+                        None if f is None else float(f[i])), case))
+        elif fresh[0] == "ok":
+            f = fresh[1]
+            with np.errstate(invalid="ignore"):
+                same = np.all((np.abs(got - f) <= RTOL * (1.0 + np.abs(f))) | (np.isnan(got) & np.isnan(f)) |
+                              (got == f))
+            if not same:
+                viol.append(core.violation(
+                    self.tags(L, hist, "split_changes_transform", rows, sub="values"),
+                    "%s: %r; an object that accumulated the same vectors in one call gives %r" % (
+                        where, got.ravel()[:4].tolist(), f.ravel()[:4].tolist()), case))
+        same_bits = fresh[0] == "ok" and _same_bits(got, fresh[1])
+        return viol, rows, ("apply", kind, dtype, ip, defined, bool(rows), same_bits)
+
+
+def _eval_history(c, seed, tier, replay_ops=None):
+    H = _Hist(c, seed)
+    if replay_ops is not None:
+        obj, rows, hist, viol = H.make(), H.start_rows, (), []
+        for L in replay_ops:
+            if not H.valid(L, rows):
+                raise core.HarnessError("replay: %r is outside the alphabet without statistics" % (L,))
+            v, rows, _ = H.call(obj, L, rows, hist)
+            viol.extend(v)
+            hist = hist + (tuple(L),)
+        for v in viol:
+            v["case"] = dict(mode="history", config=c, ops=replay_ops)
+        return core.result(viol)
+    depth = c["depth"]
+    plain = c["plain"]
+    viol, obs = [], set()
+    seqs = calls = pruned = 0
+    st = None
+    if c["part"] == "bfs":
+        def ops(s):
+            if len(s.hist) >= depth:
+                return
+            for L in H.letters:
+                if H.valid(L, s.rows):
+                    yield L
+
+        def step(s, L):
+            obj = copy.deepcopy(s.obj)
+            v, rows, o = H.call(obj, L, s.rows, s.hist)
+            return _HSt(obj, rows, s.hist + (tuple(L),)), v, o
+
+        def rows_of(hist):
+            rows = H.start_rows
+            for h in hist:
+                if h[0] == "acc":
+                    rows = rows + H_ACC_ROWS[h[1]]
+            return tuple(sorted(rows))
+
+        def on_merge(rep_hist, s2, h2):
+            a = rows_of(rep_hist)
+            if a == s2.rows:
+                return []
+            if _exact_stats(H.data, a) == _exact_stats(H.data, s2.rows):
+                return []  # different multisets, identical sufficient statistics: the same transform
+            return [core.violation(
+                dict(mode="history", norm_var=H.norm_var, what="merge_mismatch"),
+                "histories accumulating vectors %s and %s leave the object in the same state" % (a, s2.rows),
+                dict(mode="history", config=c, ops=[list(h) for h in h2]))]
+
+        st = explorer.bfs(lambda: _HSt(H.make(), H.start_rows, ()), ops, step, lambda s: _canon(s.obj),
+                          max_states=20000, max_viol=80, on_merge=on_merge)
+        viol = list(st.violations)
+        obs = set(st.observations)
+    else:
+        # every sequence of `plain` calls that starts with letter number c["part"]
+        first = H.letters[c["part"]]
+        for rest in itertools.product(H.letters, repeat=plain - 1):
+            seq = (first,) + rest
+            obj, rows, hist = H.make(), H.start_rows, ()
+            ok = True
+            for i, L in enumerate(seq):
+                if not H.valid(L, rows):
+                    ok = False
+                    break
+                calls += 1
+                if i < plain - 1:  # prefixes are histories of the BFS / of shorter sequences
+                    rows = H.raw(obj, L, rows)
+                else:
+                    v, rows, o = H.call(obj, L, rows, hist)
+                    for w in v:
+                        w["case"] = dict(w["case"], ops=[list(l) for l in seq])
+                    viol.extend(v)
+                    obs.add(o)
+                hist = hist + (tuple(L),)
+            seqs += int(ok)
+            pruned += int(not ok)
+            if len(viol) >= 80:
+                break
+    seen, uniq = set(), []
+    for v in viol:
+        h = core.sig_hash(v["tags"])
+        if h not in seen:
+            seen.add(h)
+            uniq.append(v)
+    if st is not None:
+        return core.result(
+            uniq, nontrivial=st.states >= 4, obs=sorted(map(str, obs)), obs_is_set=True,
+            evals=st.transitions, nontrivial_count=st.transitions,
+            states=st.states, transitions=st.transitions, impl_calls=st.transitions,
+            capped=st.capped if (st.capped and not uniq) else None,
+            sample=dict(config=c, letters=len(H.letters), bfs_states=st.states, bfs_transitions=st.transitions,
+                        bfs_max_depth=st.max_depth))
+    return core.result(uniq, nontrivial=seqs > 0, obs=sorted(map(str, obs)), obs_is_set=True, evals=seqs,
+                       nontrivial_count=seqs, impl_calls=calls, skipped=pruned or None,
+                       sample=dict(config=c, first=first, plain_sequences=seqs, plain_length=plain,
+                                   pruned_invalid_sequences=pruned))
+
+
+def _history_configs(tier):
+    # thorough: the merged search goes one call deeper; the un-merged enumeration of 4 calls over 53
+    # letters (7.9e6 sequences per configuration) is beyond the budget, so it is 3 for every F
+    depth, plain = (4, 3) if tier == "quick" else (5, 3)
+    out = []
+    for norm_var in (True, False):
+        for F in (3, 1):
+            for start in ("empty", "pre"):
+                # the un-merged enumeration is one call shorter for the single-coefficient configurations
+                base = dict(F=F, norm_var=norm_var, data="mixed", start=start, depth=depth,
+                            plain=plain if (F > 1 or tier != "quick") else plain - 1)
+                out.append(dict(base, part="bfs"))
+                # the un-merged enumeration, sharded by the first letter of the sequence
+                out += [dict(base, part=i) for i in range(H_NLETTERS)]
+    return out
+
+
 def subchecks(tier, seed):
     cs = _configs(tier)
     ext = (1, 2, 3, 4) if tier == "quick" else (1, 2, 3, 4, 6)
-    lpts = [(list(s), d, nv) for nd in (2, 3) for s in itertools.product(ext, repeat=nd)
+    lpts = [(list(s), d, nv) for nd in (1, 2, 3) for s in itertools.product(ext, repeat=nd)
             for d in ("float64", "float32", "int32", "int16") for nv in (True, False)]
     gpts = [(F, nv, d) for F in ((1, 2, 3) if tier == "quick" else (1, 2, 3, 5))
             for nv in (True, False) for d in ("float64", "float32", "int32", "int16")]
@@ -581,10 +1024,29 @@ def subchecks(tier, seed):
             replay=lambda case: explore_config(case["config"], seed, replay_ops=case["ops"]),
             chunk=1, kind="explore"),
         core.SubCheck(
+            "call_histories", _history_configs(tier), lambda c: _eval_history(c, seed, tier),
+            "ONE Standardize per configuration: every history over the alphabet {accumulate x 7 "
+            "presentations, apply x 7 shapes x 3 dtypes x in_place, refused accumulate/apply of a "
+            "mismatching dimension}: BFS with state merging to the depth bound and every sequence of "
+            "`plain` calls on a new object without merging; every apply against the direct formula over "
+            "the model's multiset of vectors (local standardisation before any accumulate), float64, input "
+            "bit-identical unless in_place, and a fresh object's result where a zero variance leaves the "
+            "formula undefined",
+            axes=dict(F=[1, 3], norm_var=[True, False], start=["empty", "pre (vectors 0,1 accumulated)"],
+                      bfs_depth=4 if tier == "quick" else 5,
+                      plain_length="%d (F=3), %d (F=1)" % ((3, 2) if tier == "quick" else (3, 3)),
+                      accumulate=list(H_ACC), apply_shape=list(H_APPLY_KINDS), apply_dtype=list(H_APPLY_DTYPES),
+                      in_place=[False, True], refused=["bad_acc:vec", "bad_acc:2d", "bad_apply:vec",
+                                                       "bad_apply:2d"]),
+            replay=lambda case: _eval_history(case["config"], seed, tier, replay_ops=case["ops"]),
+            chunk=1, kind="explore"),
+        core.SubCheck(
             "local", lpts, lambda p: _eval_local(p, seed),
             "no statistics: apply() over shapes x dtype x norm_var (inner: axis x in_place) equals the "
-            "direct per-coefficient standardisation, mean 0, variance 1; non-trivial = >= 2 vectors",
-            axes=dict(shape="2-D and 3-D, extents in %s" % (list(ext),),
+            "direct per-coefficient standardisation, mean 0, variance 1; a single vector (1-D input or all "
+            "other axes of length 1) gives zeros without norm_var; result float64 and the (writable) input "
+            "bit-identical afterwards unless in_place; non-trivial = the values are defined by the property",
+            axes=dict(shape="1-D, 2-D and 3-D, extents in %s" % (list(ext),),
                       dtype=["float64", "float32", "int32", "int16"], norm_var=[True, False],
                       axis="-ndim..ndim-1", in_place=[False, True]),
             replay=lambda case: _replay_local(case, seed)),
